@@ -542,7 +542,11 @@ func runFlavor(p *Property, o SupOpts, fl, bin, casesFile string, cases []Case, 
 		cmd := exec.Command(bin, "child", p.ID, casesFile, fmt.Sprint(b.from), fmt.Sprint(b.to), outFile, fl, o.Tier)
 		cmd.Stdout = ef
 		cmd.Stderr = ef
-		cmd.Env = append(os.Environ(), "GOTRACEBACK=all")
+		// children keep their per-case scratch under the supervisor's directory: whatever a dying child
+		// leaves behind goes away with it
+		work := filepath.Join(scratch, "work")
+		os.MkdirAll(work, 0o755)
+		cmd.Env = append(os.Environ(), "GOTRACEBACK=all", "VERIF_SCRATCH="+work)
 		cmd.Env = append(cmd.Env, p.ChildEnv...)
 		if fl == "race" {
 			cmd.Env = append(cmd.Env, "GORACE=halt_on_error=0 log_path="+filepath.Join(scratch, fmt.Sprintf("race-%d", n)))
